@@ -68,6 +68,8 @@ def node_src(n):
         lines.append('    tags = (NodeTag.process,)')
     elif mode == 'thread_tag':
         lines.append('    tags = (NodeTag.thread,)')
+    elif mode == 'custom_tag':
+        lines.append("    tags = ('io_bound',)")
     r = n.get('retry')
     if r:
         if r.get('attempts') is not None:
